@@ -1,7 +1,7 @@
 """Helpers shared by the rule modules: canonical forms of expressions, variant chains,
 table extraction on top of pathwalk, constant lookup."""
 import re
-from pathwalk import Walker, show, show_atom, show_leaf, const_val, err_of, TooManyPaths, strip_refs
+from pathwalk import vocab_consts, Walker, show, show_atom, show_leaf, const_val, err_of, TooManyPaths, strip_refs
 from mirlib import AnchorMissing, loc_of, mac_of, callee_name
 
 
@@ -70,6 +70,34 @@ def _apply_value(e):
     return res
 
 
+SLICE_INDEX_CALL = re.compile(r"<impl (std::ops::)?Index(Mut)?<I> for (\[T\]|\[T; N\]|std::vec::Vec<T, A>|str|std::string::String)>::index(_mut)?$")
+SPLIT_AT_CALL = re.compile(r"^(std|core)::(slice::<impl \[T\]>|str::<impl str>)::split_at(_mut)?$")
+SLICE_GET_CALL = re.compile(r"^(std|core)::(slice::<impl \[T\]>|str::<impl str>)::get(_mut)?$")
+
+
+def _is_range(r):
+    r = strip_refs(r)
+    return isinstance(r, tuple) and r[0] == "agg" and r[1] == "adt" and re.search(r"ops::Range\w*$", r[2]) is not None
+
+
+def _range_str(r, keep_sites, canon):
+    r = strip_refs(r)
+    if _is_range(r):
+        kind = r[2].split("::")[-1]
+        ops = [canon(x, keep_sites) for x in r[5]]
+        if kind == "Range" and len(ops) == 2:
+            return "%s..%s" % (ops[0], ops[1])
+        if kind == "RangeFrom" and len(ops) == 1:
+            return "%s.." % ops[0]
+        if kind == "RangeTo" and len(ops) == 1:
+            return "..%s" % ops[0]
+        if kind == "RangeFull":
+            return ".."
+        if kind == "RangeToInclusive" and len(ops) == 1:
+            return "..=%s" % ops[0]
+    return canon(r, keep_sites)
+
+
 CONV = re.compile(r"(^|<.* as )std::convert::(From|Into)(<.*>)?(>)?::(from|into)$")
 
 
@@ -105,6 +133,10 @@ def _canon(e, keep_sites, _d):
         v = const_val(e)
         nm = last2(e[1])
         if isinstance(v, int) and not isinstance(v, bool):
+            base = e[1][:-2] if e[1].endswith(".0") else e[1]
+            vc = vocab_consts()
+            if vc and base.startswith(("wtransport::", "wtransport_proto::")) and base not in vc:
+                return str(v)   # a named constant introduced after the reference tree: it is its value
             return "%s=%d" % (nm, v)
         return nm
     if k == "fnref":
@@ -118,14 +150,21 @@ def _canon(e, keep_sites, _d):
     if k == "cparam":
         return e[1]
     if k == "call":
+        if len(e[2]) == 2 and SLICE_INDEX_CALL.search(e[1]):
+            # one notation for every way of taking a sub-slice: s[a..b]
+            return "%s[%s]" % (canon(e[2][0], keep_sites), _range_str(e[2][1], keep_sites, canon))
         s = "%s(%s)" % (last2(e[1]), ",".join(canon(a, keep_sites) for a in e[2]))
         return s + ("@%d" % e[3] if keep_sites else "")
     if k == "f":
         b = e[1]
+        bb = strip_refs(b)
+        if isinstance(bb, tuple) and bb[0] == "call" and len(bb[2]) == 2 and SPLIT_AT_CALL.search(bb[1]) and e[2] in (0, 1, "0", "1"):
+            n = canon(bb[2][1], keep_sites)
+            return "%s[%s]" % (canon(bb[2][0], keep_sites), (".." + n) if str(e[2]) == "0" else (n + ".."))
         if isinstance(b, tuple) and b[0] == "dc" and e[2] in (0, "0"):
             # payload of a known variant: `(x as Ok).0` / `(x as Some).0` is what `x?` continues with, `(x as Err).0` what it returns
             if b[2] in ("Ok", "Some"):
-                return "ok(%s)" % canon(b[1], keep_sites)
+                return canon(("ok", b[1]), keep_sites)
             if b[2] == "Err":
                 return "err(%s)" % canon(b[1], keep_sites)
         return "%s.%s" % (canon(e[1], keep_sites), e[2])
@@ -160,9 +199,12 @@ def _canon(e, keep_sites, _d):
         return "%s[%s]" % (canon(e[1], keep_sites), canon(e[2], keep_sites))
     if k == "rep":
         return "[%s;%s]" % (canon(e[1], keep_sites), e[2])
-    if k == "some":
+    if k in ("some", "ok"):
+        g = strip_refs(e[1])
+        if isinstance(g, tuple) and g[0] == "call" and len(g[2]) == 2 and SLICE_GET_CALL.search(g[1]) and _is_range(g[2][1]):
+            return "%s[%s]" % (canon(g[2][0], keep_sites), _range_str(g[2][1], keep_sites, canon))   # `s.get(a..b)?` is `s[a..b]` once it succeeded
         return "ok(%s)" % canon(e[1], keep_sites)
-    if k in ("await", "poll", "branch", "ok", "resid", "err"):
+    if k in ("await", "poll", "branch", "resid", "err"):
         return "%s(%s)" % (k, canon(e[1], keep_sites))
     if k == "errret":
         # what `x?` returns, spelled like the explicit `return Err(e)` of the function's return type
@@ -299,6 +341,33 @@ def apply_closure(prog, agg, args=(), **kw):
     for i, x in enumerate(args):
         env[2 + i] = x
     return Walker(fn, env1=env, **kw).run()
+
+
+def variant_table(paths, variants):
+    """{variant: [paths]} for a function that matches on one enum value: a path belongs to variant V when it carries `x is V`, or
+    `x isnot {..}` (the wildcard / otherwise arm) with V not excluded — so explicit arms, or-patterns and `_ =>` arms all resolve"""
+    subj = None
+    for p in paths:
+        for a in p.atoms:
+            if a[0] in ("is", "isnot"):
+                subj = a[1]
+                break
+        if subj is not None:
+            break
+    out = {v: [] for v in variants}
+    for p in paths:
+        is_v = [a[2] for a in p.atoms if a[0] == "is" and a[1] == subj]
+        not_v = [set(a[2]) for a in p.atoms if a[0] == "isnot" and a[1] == subj]
+        for v in variants:
+            if is_v:
+                if v == is_v[0]:
+                    out[v].append(p)
+            elif not_v:
+                if all(v not in s for s in not_v):
+                    out[v].append(p)
+            elif subj is None:
+                out[v].append(p)   # no match at all: the same result for every variant
+    return out
 
 
 def nonpanic(paths):
